@@ -167,6 +167,8 @@ def run_FF9(chk):
                         f"a charged state built this way has zero overlap with every conventional MPS/MPO")
 
 MUTANTS = [
+    ('truediv keeps the phase of the divisor', 'yastn/tn/mps/_mps_parent.py', '        return self.__mul__(1 / number)', '        phi = self.shallow_copy()\n        am = abs(number)\n        phi.factor = self.factor / am\n        phi.A[0] = phi.A[0] * (number / am)\n        return phi', 'FF3'),
+    ('charge absorbed by the last virtual leg', 'yastn/tn/mps/_initialize.py', '    ten = ten.add_leg(axis=0, s=-1).add_leg(axis=-nr_phys, s=1)', '    ten = ten.add_leg(axis=-nr_phys, s=1).add_leg(axis=0, s=-1)', 'FF9'),
     ("Heff2 forgets factor", "yastn/tn/mps/_env.py", "        tmp = tensordot(self.F[n1 - 1, n1], tmp, axes=((0, 1), (3, 0)))\n        return tmp * self.op.factor\n\n    def hole(self, n):", "        tmp = tensordot(self.F[n1 - 1, n1], tmp, axes=((0, 1), (3, 0)))\n        return tmp\n\n    def hole(self, n):", "FF2"),
     ("mul keeps old factor", "yastn/tn/mps/_mps_parent.py", "            phi.factor = am * self.factor\n            phi.A[0] = phi.A[0] * (number / am)", "            phi.factor = self.factor\n            phi.A[0] = phi.A[0] * (number / am)", "FF3"),
     ("add ignores factors", "yastn/tn/mps/_mps_obc.py", "    amplitudes = [x * psi.factor for x, psi in zip(amplitudes, states)]", "    amplitudes = [x for x, psi in zip(amplitudes, states)]", "FF1"),
